@@ -199,6 +199,7 @@ func (w *World) VerifyFunc(key string) (vc *VC, err error) {
 		fr.assignsOK = fr.mkAssignsOK(fc, env)
 	}
 	res, out := fr.run(st, args, free)
+	vc.replay = &replayInfo{fn: fn, params: args, result: res}
 	// postconditions
 	if fc != nil {
 		env := fr.contractEnv(out.heap)
